@@ -1,1 +1,371 @@
-fn main(){}
+//! dalek-sim: deterministic simulation driver for curve25519-dalek / ed25519-dalek / x25519-dalek.
+//!
+//! One integer (the seed) decides every generated plan; executing a plan never consults a PRNG
+//! or a clock. Exit codes: 0 clean, 1 violation(s) found, 2 harness error.
+
+mod dict;
+mod disk;
+mod env;
+mod exec;
+mod gen_disk;
+mod gen_group;
+mod gen_wire;
+mod group;
+mod shrink;
+mod wire;
+
+use serde_json::json;
+use simcore::{merge, Counters, Plan, ReplayFile};
+use std::collections::{BTreeMap, BTreeSet};
+use std::sync::atomic::{AtomicU64, Ordering};
+use std::sync::{Arc, Mutex};
+
+fn arg<'a>(args: &'a [String], name: &str) -> Option<&'a str> {
+    args.iter().position(|a| a == name).and_then(|i| args.get(i + 1)).map(|s| s.as_str())
+}
+
+fn flag(args: &[String], name: &str) -> bool {
+    args.iter().any(|a| a == name)
+}
+
+pub fn build_info() -> BTreeMap<String, String> {
+    let mut m = BTreeMap::new();
+    m.insert("tables".into(), cfg!(feature = "tables").to_string());
+    m.insert("legacy".into(), cfg!(feature = "legacy").to_string());
+    m.insert("profile".into(), if cfg!(debug_assertions) { "checked" } else { "release" }.into());
+    m.insert("tag".into(), option_env!("DALEK_SIM_TAG").unwrap_or("unknown").into());
+    m
+}
+
+pub fn generate(family: &str, focus: &str, seed: u64, run: u64, thorough: bool) -> Plan {
+    match family {
+        "group" => gen_group::generate(seed, run, &gen_group::GenCfg { focus: focus.into(), thorough }),
+        "wire" => gen_wire::generate(seed, run, focus, thorough),
+        "disk" => gen_disk::generate(seed, run, focus, thorough),
+        _ => {
+            eprintln!("unknown family {}", family);
+            std::process::exit(2);
+        }
+    }
+}
+
+fn log_hash(log: &[(usize, u64)]) -> u64 {
+    let mut flat = Vec::with_capacity(log.len() * 16);
+    for (i, h) in log {
+        flat.extend_from_slice(&(*i as u64).to_le_bytes());
+        flat.extend_from_slice(&h.to_le_bytes());
+    }
+    simcore::fnv1a(&flat)
+}
+
+fn abridge(plan: &Plan) -> serde_json::Value {
+    let mut v = serde_json::to_value(plan).unwrap();
+    if let Some(steps) = v.get_mut("steps").and_then(|s| s.as_array_mut()) {
+        let n = steps.len();
+        if n > 12 {
+            steps.truncate(12);
+            steps.push(json!(format!("... {} more steps", n - 12)));
+        }
+        for st in steps.iter_mut() {
+            if let Some(o) = st.as_object_mut() {
+                for (_, val) in o.iter_mut() {
+                    if let Some(a) = val.as_array_mut() {
+                        let n = a.len();
+                        if n > 4 {
+                            a.truncate(4);
+                            a.push(json!(format!("... {} more", n - 4)));
+                        }
+                    }
+                    if let Some(s) = val.as_str() {
+                        if s.len() > 140 {
+                            *val = json!(format!("{}...({} hex chars)", &s[..128], s.len()));
+                        }
+                    }
+                }
+            }
+        }
+    }
+    v
+}
+
+struct Shared {
+    counters: Counters,
+    gen_counters: Counters,
+    sigs: BTreeSet<u64>,
+    nontrivial: u64,
+    executed: u64,
+    skipped: u64,
+    ticks: u64,
+    runs_done: u64,
+    violations: Vec<serde_json::Value>,
+    samples: BTreeMap<u64, serde_json::Value>,
+    logs: BTreeMap<u64, (u64, usize)>,
+}
+
+fn cmd_run(args: &[String]) -> i32 {
+    let family = arg(args, "--family").unwrap_or("group").to_string();
+    let focus = arg(args, "--focus").unwrap_or("C03").to_string();
+    let seed: u64 = arg(args, "--seed").and_then(|s| s.parse().ok()).unwrap_or(0xD41E5EED);
+    let runs: u64 = arg(args, "--runs").and_then(|s| s.parse().ok()).unwrap_or(100);
+    let start: u64 = arg(args, "--start").and_then(|s| s.parse().ok()).unwrap_or(0);
+    let jobs: usize = arg(args, "--jobs").and_then(|s| s.parse().ok()).unwrap_or(16);
+    let thorough = arg(args, "--tier") == Some("thorough");
+    let replay_dir = arg(args, "--replay-dir").unwrap_or("/verif/replays").to_string();
+    let logs_path = arg(args, "--logs").map(|s| s.to_string());
+    let max_viol: usize = arg(args, "--max-violations").and_then(|s| s.parse().ok()).unwrap_or(5);
+    let no_shrink = flag(args, "--no-shrink");
+    // stop handing out new runs once this file exists (wall-clock budget is the Python driver's business)
+    let stop_file = arg(args, "--stop-file").map(|s| s.to_string());
+
+    let next = Arc::new(AtomicU64::new(0));
+    let shared = Arc::new(Mutex::new(Shared {
+        counters: Counters::new(),
+        gen_counters: Counters::new(),
+        sigs: BTreeSet::new(),
+        nontrivial: 0,
+        executed: 0,
+        skipped: 0,
+        ticks: 0,
+        runs_done: 0,
+        violations: Vec::new(),
+        samples: BTreeMap::new(),
+        logs: BTreeMap::new(),
+    }));
+    let mut handles = Vec::new();
+    for _ in 0..jobs.max(1) {
+        let next = next.clone();
+        let shared = shared.clone();
+        let family = family.clone();
+        let focus = focus.clone();
+        let replay_dir = replay_dir.clone();
+        let stop_file = stop_file.clone();
+        let want_logs = logs_path.is_some();
+        handles.push(
+            std::thread::Builder::new()
+                .stack_size(64 << 20)
+                .spawn(move || loop {
+                    let k = next.fetch_add(1, Ordering::SeqCst);
+                    if k >= runs {
+                        break;
+                    }
+                    if let Some(sf) = &stop_file {
+                        if k % 8 == 0 && std::path::Path::new(sf).exists() {
+                            break;
+                        }
+                    }
+                    if shared.lock().unwrap().violations.len() >= max_viol {
+                        break;
+                    }
+                    let run = start + k;
+                    let plan = generate(&family, &focus, seed, run, thorough);
+                    let res = exec::execute(&plan);
+                    let mut viol_json = None;
+                    if let Some(v) = &res.violation {
+                        let (splan, sv) = if no_shrink { (plan.clone(), v.clone()) } else { shrink::shrink(&plan, v) };
+                        let prop = if sv.props.contains(&focus) { focus.clone() } else { sv.props.first().cloned().unwrap_or(focus.clone()) };
+                        let signature = shrink::signature(&splan, &sv);
+                        let rf = ReplayFile {
+                            version: 1,
+                            property: prop.clone(),
+                            build: build_info(),
+                            plan: splan.clone(),
+                            violation: sv.clone(),
+                            signature: signature.clone(),
+                            original_steps: plan.steps.len(),
+                        };
+                        let text = serde_json::to_string_pretty(&rf).unwrap();
+                        let dir = format!("{}/{}", replay_dir, prop);
+                        let _ = std::fs::create_dir_all(&dir);
+                        let path = format!("{}/{}-{}-{:016x}.json", dir, seed, run, simcore::fnv1a(text.as_bytes()));
+                        if let Err(e) = std::fs::write(&path, &text) {
+                            eprintln!("cannot write replay file {}: {}", path, e);
+                        }
+                        viol_json = Some(json!({
+                            "run": run,
+                            "property": prop,
+                            "props": sv.props,
+                            "replay": path,
+                            "class": sv.class,
+                            "signature": signature,
+                            "detail": sv.detail,
+                            "steps_before_shrink": plan.steps.len(),
+                            "steps_after_shrink": splan.steps.len(),
+                        }));
+                    }
+                    let mut s = shared.lock().unwrap();
+                    merge(&mut s.counters, &res.counters);
+                    merge(&mut s.gen_counters, &plan.faults);
+                    s.executed += res.executed;
+                    s.skipped += res.skipped;
+                    s.ticks += plan.ticks;
+                    s.runs_done += 1;
+                    if res.executed > 0 {
+                        s.nontrivial += 1;
+                        s.sigs.insert(res.signature);
+                    }
+                    if want_logs {
+                        s.logs.insert(run, (log_hash(&res.log), res.log.len()));
+                    }
+                    if k < 2 {
+                        s.samples.insert(run, abridge(&plan));
+                    }
+                    if let Some(v) = viol_json {
+                        s.violations.push(v);
+                    }
+                })
+                .unwrap(),
+        );
+    }
+    let mut harness_error = false;
+    for h in handles {
+        if h.join().is_err() {
+            harness_error = true;
+        }
+    }
+    let s = shared.lock().unwrap();
+    if let Some(p) = logs_path {
+        let mut text = String::new();
+        for (run, (h, n)) in &s.logs {
+            text.push_str(&format!("{} {:016x} {}\n", run, h, n));
+        }
+        if std::fs::write(&p, text).is_err() {
+            harness_error = true;
+        }
+    }
+    let mut viols = s.violations.clone();
+    viols.sort_by_key(|v| v["run"].as_u64().unwrap_or(0));
+    let out = json!({
+        "family": family,
+        "focus": focus,
+        "seed": seed,
+        "start": start,
+        "runs_requested": runs,
+        "runs": s.runs_done,
+        "steps_executed": s.executed,
+        "steps_skipped": s.skipped,
+        "sim_ticks": s.ticks,
+        "distinct_signatures": s.sigs.len(),
+        "nontrivial_runs": s.nontrivial,
+        "counters": s.counters,
+        "gen_counters": s.gen_counters,
+        "violations": viols,
+        "samples": s.samples.values().collect::<Vec<_>>(),
+        "build": build_info(),
+        "compiled_backend_mask": env::compiled_mask_global(),
+    });
+    println!("{}", serde_json::to_string(&out).unwrap());
+    if harness_error {
+        2
+    } else if !s.violations.is_empty() {
+        1
+    } else {
+        0
+    }
+}
+
+fn cmd_replay(args: &[String]) -> i32 {
+    let path = match args.get(0) {
+        Some(p) => p,
+        None => return 2,
+    };
+    let text = match std::fs::read_to_string(path) {
+        Ok(t) => t,
+        Err(e) => {
+            eprintln!("cannot read {}: {}", path, e);
+            return 2;
+        }
+    };
+    let rf: ReplayFile = match serde_json::from_str(&text) {
+        Ok(r) => r,
+        Err(e) => {
+            eprintln!("bad replay file: {}", e);
+            return 2;
+        }
+    };
+    let res = exec::execute(&rf.plan);
+    let same = res.violation.as_ref().map(|v| v.class == rf.violation.class).unwrap_or(false);
+    let out = json!({
+        "replay": path,
+        "property": rf.property,
+        "expected_class": rf.violation.class,
+        "violation": res.violation,
+        "reproduced": same,
+        "signature": rf.signature,
+        "build": build_info(),
+    });
+    println!("{}", serde_json::to_string(&out).unwrap());
+    if flag(args, "--log") {
+        for (i, h) in &res.log {
+            println!("LOG {} {:016x}", i, h);
+        }
+    }
+    match (&res.violation, same) {
+        (Some(_), true) => 1,
+        (Some(_), false) => 3,
+        (None, _) => 0,
+    }
+}
+
+/// execute a bare plan (JSON) and print its event log; used by the cross-configuration checks
+fn cmd_exec_plan(args: &[String]) -> i32 {
+    let path = match args.get(0) {
+        Some(p) => p,
+        None => return 2,
+    };
+    let plan: Plan = match std::fs::read_to_string(path).ok().and_then(|t| serde_json::from_str(&t).ok()) {
+        Some(p) => p,
+        None => {
+            eprintln!("cannot read plan {}", path);
+            return 2;
+        }
+    };
+    let res = exec::execute(&plan);
+    for (i, h) in &res.log {
+        println!("LOG {} {:016x}", i, h);
+    }
+    println!("RESULT {}", serde_json::to_string(&json!({"violation": res.violation, "log_hash": format!("{:016x}", log_hash(&res.log)), "n": res.log.len()})).unwrap());
+    0
+}
+
+fn cmd_dump_plan(args: &[String]) -> i32 {
+    let family = arg(args, "--family").unwrap_or("group");
+    let focus = arg(args, "--focus").unwrap_or("C03");
+    let seed: u64 = arg(args, "--seed").and_then(|s| s.parse().ok()).unwrap_or(0xD41E5EED);
+    let run: u64 = arg(args, "--run").and_then(|s| s.parse().ok()).unwrap_or(0);
+    let thorough = arg(args, "--tier") == Some("thorough");
+    let plan = generate(family, focus, seed, run, thorough);
+    println!("{}", serde_json::to_string_pretty(&plan).unwrap());
+    0
+}
+
+fn main() {
+    env::install_panic_hook();
+    let args: Vec<String> = std::env::args().skip(1).collect();
+    let code = match args.first().map(|s| s.as_str()) {
+        Some("run") => cmd_run(&args[1..]),
+        Some("replay") => cmd_replay(&args[1..]),
+        Some("exec-plan") => cmd_exec_plan(&args[1..]),
+        Some("dump-plan") => cmd_dump_plan(&args[1..]),
+        Some("selfcheck") => match refmodel::selfcheck::run() {
+            Ok(n) => {
+                println!("{}", json!({"model_selfcheck": "ok", "checks": n}));
+                0
+            }
+            Err(e) => {
+                eprintln!("MODEL SELF-CHECK FAILED: {}", e);
+                2
+            }
+        },
+        Some("info") => {
+            // one dispatch so the compiled mask is known
+            let _ = curve25519_dalek::EdwardsPoint::mul_base(&curve25519_dalek::Scalar::ONE) * curve25519_dalek::Scalar::ONE;
+            println!("{}", json!({"build": build_info(), "compiled_backend_mask": env::compiled_mask_global()}));
+            0
+        }
+        _ => {
+            eprintln!("usage: dalek-sim run|replay|exec-plan|dump-plan|selfcheck|info ...");
+            2
+        }
+    };
+    std::process::exit(code);
+}
